@@ -85,6 +85,10 @@ func (c16) Generate(r *sim.Rand, tier string) *sim.Scenario {
 		switch {
 		case r.Bool(pSwap):
 			st := sim.Step{C: 1, Op: "swap", N: r.Intn(2), F: randData(r, O, true), B: r.Bool(0.85), Out: -1}
+			if r.Bool(0.25) {
+				st.Tag = []string{"full", "full-then-reset"}[r.Intn(2)]
+				st.F[0] = []float64{0, 1, 1, 0.5, -1, 2}[r.Intn(6)]
+			}
 			sc.Steps = append(sc.Steps, st)
 			if r.Bool(0.3) {
 				sc.Steps = append(sc.Steps, sim.Step{C: 1, Op: "weights", Out: -1})
@@ -304,9 +308,39 @@ func (prop c16) Execute(sc *sim.Scenario) *sim.Outcome {
 				out.Discard = "malformed"
 				return out
 			}
-			nt := sim.Leaf([]int{O}, st.F[:O], st.B)
+			vals := cpF(st.F[:O])
+			var nt tensor.Tensor
+			switch st.Tag {
+			case "full", "full-then-reset":
+				// the caller builds the replacement with the library's constant
+				// constructors (equal requests may come back as one object if
+				// constants were ever shared: the parameters must still behave as
+				// two tensors)
+				for i := range vals {
+					vals[i] = vals[0]
+				}
+				var err error
+				switch {
+				case vals[0] == 0:
+					nt, err = tensor.Zeros([]int{O}, &tensor.Config{Device: tensor.CPU, GradTrack: st.Tag == "full" && st.B})
+				case vals[0] == 1:
+					nt, err = tensor.Ones([]int{O}, &tensor.Config{Device: tensor.CPU, GradTrack: st.Tag == "full" && st.B})
+				default:
+					nt, err = tensor.Full([]int{O}, vals[0], &tensor.Config{Device: tensor.CPU, GradTrack: st.Tag == "full" && st.B})
+				}
+				if err != nil {
+					out.Fail("constructor-error", "%s: constant constructor for a parameter of length %d returned error: %v", where, O, err)
+					return fin()
+				}
+				if st.Tag == "full-then-reset" {
+					nt.ResetGradContext(st.B)
+				}
+				out.Faults["pointer-swap/library-constant"]++
+			default:
+				nt = sim.Leaf([]int{O}, vals, st.B)
+			}
 			*ptr[k] = nt
-			np := &pobj{t: nt, vals: cpF(st.F[:O]), tracked: st.B}
+			np := &pobj{t: nt, vals: vals, tracked: st.B}
 			cur[k] = np
 			all = append(all, np)
 			out.Faults["pointer-swap"]++
